@@ -145,11 +145,13 @@ Outcome(op, L, m, R, n) ==
   ELSE [doc |-> Unspec, len |-> 0, picks |-> <<>>]      \* multi-valued operands of non-vectorised cells
 
 \* ---- per-value (unary) methods named by C09: M values in, M results out, result i from value i
+\* ("->X" is the conversion of every value to class X; judged where the library documents or
+\* implements it for sequences: UnitQuaternion(X) "if len(X) > 1 ... same length", SE2.SE3())
 PerValue(c) ==
   CASE c = "SO2"            -> {"inv", "R", "theta", "log", "det", "norm"}
-    [] c = "SE2"            -> {"inv", "R", "t", "theta", "xyt", "log", "det", "norm"}
-    [] c = "SO3"            -> {"inv", "R", "rpy", "eul", "log", "det", "norm"}
-    [] c = "SE3"            -> {"inv", "R", "t", "rpy", "eul", "log", "det", "norm"}
+    [] c = "SE2"            -> {"inv", "R", "t", "theta", "xyt", "log", "det", "norm", "->SE3"}
+    [] c = "SO3"            -> {"inv", "R", "rpy", "eul", "log", "det", "norm", "->UnitQuaternion"}
+    [] c = "SE3"            -> {"inv", "R", "t", "rpy", "eul", "log", "det", "norm", "->UnitQuaternion"}
     [] c = "Quaternion"     -> {"conj", "norm", "log"}
     [] c = "UnitQuaternion" -> {"inv", "conj", "norm", "R", "rpy", "eul", "log"}
     [] c = "Twist2"         -> {"inv"}
@@ -158,10 +160,14 @@ PerValue(c) ==
 
 \* explored and reported, not judged (not named by the statement)
 PerValueExtra(c) ==
-  CASE c \in {"SO3", "SE3", "UnitQuaternion"} -> {"angvec"}
+  CASE c = "SO3"  -> {"angvec"}
+    [] c = "SE3"  -> {"angvec", "->Twist3"}
+    [] c = "UnitQuaternion" -> {"angvec", "->SO3", "->SE3"}
+    [] c = "SO2"  -> {"->SE2"}
+    [] c = "SE2"  -> {"->Twist2"}
     [] c = "Quaternion"     -> {"unit", "s", "v", "vec", "exp"}
-    [] c = "Twist3"         -> {"v", "w", "theta", "pitch", "pole", "unit", "S", "se3", "exp", "isunit", "isprismatic"}
-    [] c = "Twist2"         -> {"v", "w", "unit", "S", "se2", "exp", "isunit", "isprismatic"}
+    [] c = "Twist3"         -> {"v", "w", "theta", "pitch", "pole", "unit", "S", "se3", "exp", "isunit", "isprismatic", "->SE3"}
+    [] c = "Twist2"         -> {"v", "w", "unit", "S", "se2", "exp", "isunit", "isprismatic", "->SE2"}
     [] OTHER                -> {}
 
 MapOutcome(judged, m) ==
